@@ -22,7 +22,9 @@ getuid/geteuid of every registered object after the step) and decides whether pr
   asked    a seteuid(string) of an existing object reaches the master with exactly that object and string
   bind     a function re-bound (bind()) to another object runs only after master::valid_bind approved that doer and
            new owner; what it creates is judged as an op of the new owner
-  known    every object in a snapshot was there before or was announced in this step; announced objects appear in
+  vo       a blueprint that master::valid_object refused is not created
+  fp       geteuid(function) after a via / bind op is the euid of the function's (new) owner
+  known    every object in a snapshot was there before or was announced in this step; no id occurs twice in a snapshot; announced objects appear in
            the snapshot as announced; every object has a uid; the driver did not crash
 
 It knows nothing about the model's world (object table, half-made objects, clone counter).
@@ -132,7 +134,7 @@ def knownClause (P : List Obj) (r : StepRec) : Bool :=
   (match r.snap with
    | none => false
    | some S =>
-     S.all (fun e => e.uid.isSome && ((getO P e.oid).isSome || isMade r e.oid)) &&
+     S.all (fun e => e.uid.isSome && ((getO P e.oid).isSome || isMade r e.oid) && decide (getO S e.oid = some e)) &&
      r.creations.all (fun c => match c.made with
        | some m =>
          (match getO S m.oid with
@@ -151,10 +153,26 @@ def bindClause (r : StepRec) : Bool :=
        | some (d, n, a) => decide (d = r.actor) && decide (n = t) && a.approved
        | none => false)
 
+/-- fp       geteuid(function) reports the euid the function's owner (a bound function's NEW owner) has at that moment -/
+def fpClause (r : StepRec) : Bool :=
+  match r.fpOwner, r.snap with
+  | some t, some S => decide (r.res = some (fpEuid S t))
+  | _, _ => true
+
+/-- vo       a blueprint master::valid_object refused (or in which it raised an error) is not created: the segment ends the op
+             with an error and announces nothing -/
+def voClause (r : StepRec) : Bool :=
+  match r.vo with
+  | none => true
+  | some (_, a) =>
+    a.approved || (r.creations.isEmpty && (match r.res with
+      | some (.err _) => true
+      | _ => false))
+
 def clauses (bb : Option Name) (P : List Obj) (r : StepRec) : List (Bool × String) :=
   [(knownClause P r, "known"), (euidClause P r, "euid"), (uidClause P r, "uid"),
    (creationClause bb P r, "creation"), (noEuidClause P r, "noeuid"), (exportClause P r, "export"),
-   (askedClause P r, "asked"), (bindClause r, "bind")]
+   (askedClause P r, "asked"), (bindClause r, "bind"), (fpClause r, "fp"), (voClause r, "vo")]
 
 /-- violated clauses of one step, given the previous snapshot -/
 def judgeStep (bb : Option Name) (P : List Obj) (r : StepRec) : List String :=
